@@ -75,8 +75,9 @@ class Case:
                 for a in axis_names(self.ndim):
                     attrs[a] = float(n["pos"])
             if self.with_ids:
-                attrs["track_id"] = n["tid"]
-                attrs["lineage_id"] = n["lin"]
+                # (ids filled from a numpy / pandas table are numpy integers, not Python ints)
+                attrs["track_id"] = np.int64(n["tid"]) if sp.get("ids_np") else n["tid"]
+                attrs["lineage_id"] = np.int64(n["lin"]) if sp.get("ids_np") else n["lin"]
             if "score" in n:
                 attrs["score"] = n["score"]
             g.add_node(nid, **attrs)
